@@ -95,6 +95,7 @@ static void log_input(LogState&S,const Text&in,const std::vector<int>&eps,const 
   std::string key=jtext(in); g.set_case(J().str("driver","parse_log").raw("in",key).done());
   bool acc=false; std::unordered_set<uint64_t> seen;
   for(int ep:eps){ bool z=(ep==1||ep==2||ep==4); if(z && std::find(in.begin(),in.end(),0)!=in.end()) continue;
+    if(g.pair){ if(fits_char(in)){ bool a=false; std::string ea=parse_event<ApiA>(S.ar,in,ep,trail,a), ew=parse_event<ApiW>(S.ar,in,ep,trail,a); acc=acc||a; g.event("{\"e\":\"Pair\",\"i\":0,\"a\":"+ea+",\"w\":"+ew+"}"); } continue; }
     for(int w=0;w<2;++w){ if(w==0&&!fits_char(in)) continue; bool a=false;
       std::string ev = w==0? parse_event<ApiA>(S.ar,in,ep,trail,a) : parse_event<ApiW>(S.ar,in,ep,trail,a); acc=acc||a;
       // de-duplicate records that differ only in width / entry point
@@ -140,6 +141,7 @@ VH_DRIVER(parse_log){
         // in the middle of a larger buffer: the same range followed by other content (explicit-range entry points only)
         for(size_t tr=0;tr<trails.size();++tr){ if(!g.thorough && (k+tr+ti)%3) continue;
           Text whole=pre; Text rest(t.begin()+k,t.end()); cat(whole, tr==0? rest : trails[tr]); cat(whole,trails[(tr+1)%trails.size()]);
+          if(g.pair){ if(fits_char(whole)){ bool a=false; int ep= (k+tr)%2? 3:5; std::string ea=parse_event<ApiA>(S.mid,whole,ep,"mid",a,(int)k), ew=parse_event<ApiW>(S.mid,whole,ep,"mid",a,(int)k); g.event("{\"e\":\"Pair\",\"i\":0,\"a\":"+ea+",\"w\":"+ew+"}"); g.count(jtext(whole)+std::to_string(k),true); } continue; }
           for(int w=0;w<2;++w){ if(w==0&&!fits_char(whole)) continue; bool a=false; int ep= (k+tr)%2? 3:5;
             // place `whole`, parse only [0,k)
             std::string ev = w==0 ? parse_event<ApiA>(S.mid,whole,ep,"mid",a,(int)k) : parse_event<ApiW>(S.mid,whole,ep,"mid",a,(int)k);
